@@ -25,7 +25,7 @@ func TestSendBeforeClientSpeaks(t *testing.T) {
 		version := []string{"v1", "v2"}[rapid.IntRange(0, 1).Draw(rt, "version")]
 		payload := hx.Stream(77, rapid.IntRange(0, 3000).Draw(rt, "payload"))
 		greeting := []byte("220 upstream ready\r\n")
-		ln, err := net.Listen("tcp", "127.0.0.1:0")
+		ln, err := hx.Listen("tcp", "127.0.0.1:0")
 		if err != nil {
 			rt.Fatalf("listen: %v", err)
 		}
